@@ -28,6 +28,8 @@ def run(ctx):
     check_numbers(ctx, prog)
     check_tags(ctx, prog)
     check_sink(ctx, prog)
+    # the decoder side of the number round trip: integer / double conversion sites of the parser are range-guarded
+    C06.check_numbers(ctx, prog)
     return __doc__.split('\n\n', 1)[1]
 
 
